@@ -417,6 +417,49 @@ theorem still_alive : ∀ (ds : List (Env × Bytes)) (t : Transport), TransportI
     rw [h2]
     exact ⟨_, _, rfl, hinv2⟩
 
+/-! ### the receive path during set-up: `_do_handshake` reads datagrams through the same `_recv_next` -/
+
+/-- Before `_setup_srtp()` has created the SRTP sessions (`self._rx_srtp` is `None`: the whole DTLS handshake) NO
+datagram — whatever its first byte, in particular 128..191 — is handed to `unprotect` or to the RTP / RTCP handlers:
+`_recv_next` returns normally and only the two receive counters move.  (Dropping the `and self._rx_srtp` conjunct
+makes `self._rx_srtp.unprotect` an `AttributeError` that escapes `start()`.) -/
+theorem recv_next_before_srtp (env : Env) (t : Transport) (h : t.hasSrtp = false) (data : Bytes) :
+    recvNext env t data = .ok (t.count data, [], 0) := by
+  have hd := demux_no_srtp data
+  have hs : (t.count data).hasSrtp = false := h
+  unfold recvNext
+  dsimp only
+  rw [hs]
+  cases hx : demux false data with
+  | empty => rfl
+  | dtls => rfl
+  | ignored => rfl
+  | rtcp => exact absurd hx hd.2
+  | rtp => exact absurd hx hd.1
+
+/-- … for ANY sequence of datagrams that arrives during the handshake: nothing raised, no effect, receivers, senders and
+router exactly as before — the transport that `_setup_srtp()` completes is the one `start()` began with. -/
+theorem handshake_phase_inert : ∀ (ds : List (Env × Bytes)) (t : Transport), t.hasSrtp = false →
+    ∃ t', runAll t ds = .ok (t', []) ∧ t'.receivers = t.receivers ∧ t'.senders = t.senders ∧ t'.router = t.router
+      ∧ t'.ids = t.ids ∧ t'.hasSrtp = false := by
+  intro ds
+  induction ds with
+  | nil => intro t h; exact ⟨t, rfl, rfl, rfl, rfl, rfl, h⟩
+  | cons x rest ih =>
+    intro t h
+    obtain ⟨env, d⟩ := x
+    obtain ⟨t2, h2, ha, hb, hc, hd, he⟩ := ih (t.count d) h
+    unfold runAll
+    rw [recv_next_before_srtp env t h d]
+    simp only
+    rw [h2]
+    exact ⟨t2, rfl, ha, hb, hc, hd, he⟩
+
+/-- The hypothesis is satisfiable, and it matters: the same RTP-looking datagram is inert before the SRTP sessions
+exist and reaches the router afterwards. -/
+example : demux false [128, 0, 0, 1] = .ignored ∧ demux true [128, 0, 0, 1] = .rtp ∧ demux false [129, 200] = .ignored
+    ∧ demux true [129, 200] = .rtcp := by decide
+
 /-! ## 5. the hypotheses are satisfiable: a freshly constructed receiver / transport -/
 
 /-- `RTCRtpReceiver.__init__` for video (`JitterBuffer(capacity=128, is_video=True)`) and audio
